@@ -193,8 +193,15 @@ def build(cfg, is_async, log, **extra):
         if key not in ehs:   # first entry wins in the model's association list; keys are distinct in generated configs
             ehs[key] = [make_eh(key, i, d, is_async, log) for i, d in enumerate(hs)]
     disp = cls(middlewares=mws, error_handlers=ehs, max_batch_size=cfg.get('max_batch'), **extra)
+    shared = {}
     for m in cfg['methods']:
-        f, is_view, fname = make_callable(m, is_async, log)
+        if m.get('share') and m['share'] in shared:
+            # the SAME function object registered a second time (under another name / context designation)
+            f, is_view, fname = shared[m['share']]
+        else:
+            f, is_view, fname = make_callable(m, is_async, log)
+            if m.get('share'):
+                shared[m['share']] = (f, is_view, fname)
         c = m['ctx']
         if is_view:
             # the view exposes exactly one public method; register it under the descriptor's name
@@ -268,10 +275,20 @@ def strict_loads(text):
     return json.loads(text, parse_constant=bad)
 
 
-def run(cfg, is_async, text, ctx, **extra):
-    """Returns (out, events): out = ('none',) | ('some', doc, codes, rfc_ok) | ('raise', exc)."""
+def run(cfg, is_async, text, ctx, pre=(), **extra):
+    """Returns (out, events): out = ('none',) | ('some', doc, codes, rfc_ok) | ('raise', exc).
+    pre: request texts dispatched (and forgotten) on the same dispatcher before the observed one."""
     log = []
     disp = build(cfg, is_async, log, **extra)
+    for t in pre:
+        try:
+            if is_async:
+                loop().run_until_complete(disp.dispatch(t, context=ctx))
+            else:
+                disp.dispatch(t, context=ctx)
+        except Exception:
+            pass
+    del log[:]
     try:
         if is_async:
             r = loop().run_until_complete(disp.dispatch(text, context=ctx))
